@@ -642,8 +642,14 @@ func AuthResponseFormPost(res http.ResponseWriter, redirectURI string, response 
 }
 
 func setFragment(uri *url.URL, params url.Values) string {
-	uri.Fragment = params.Encode()
-	return uri.String()
+	// params.Encode() is already percent-encoded: passing it through
+	// uri.Fragment would make uri.String() encode it a second time.
+	encoded := params.Encode()
+	uri.Fragment, uri.RawFragment = "", ""
+	if encoded == "" {
+		return uri.String()
+	}
+	return uri.String() + "#" + encoded
 }
 
 func mergeQueryParams(uri *url.URL, params url.Values) string {
